@@ -325,11 +325,25 @@ func init() {
 		var pipe []string
 		for _, c := range CallSeq(mp) {
 			switch c {
-			case "rc.validateMetric", "rc.deDupTags", "tag.XXHashOfKeyValues", "rc.hashOfName", "flatMetricsV1.MetricAddKvsHash", "flatMetricsV1.MetricAddTimestamp", "flatMetricsV1.MetricAddName", "flatMetricsV1.MetricAddNamespace":
+			case "rc.resetForNextConverter", "rc.validateMetric", "rc.deDupTags", "tag.XXHashOfKeyValues", "rc.hashOfName", "flatMetricsV1.MetricAddKvsHash", "flatMetricsV1.MetricAddTimestamp", "flatMetricsV1.MetricAddName", "flatMetricsV1.MetricAddNamespace":
 				pipe = append(pipe, c)
 			}
 		}
 		sb.WriteString("def marshalPipeline : List String := " + LeanStrList(pipe) + "\n\n")
+
+		// the pooled converter: what is reset when, and how a request takes it from the pool
+		for _, f := range [][3]string{
+			{"BrokerRowProtoConverter", "resetForNextConverter", "protoResetForNextSrc"},
+			{"BrokerRowProtoConverter", "Reset", "protoResetSrc"},
+			{"", "NewBrokerRowProtoConverter", "protoNewConverterSrc"},
+			{"BrokerRowProtoConverter", "ConvertTo", "protoConvertToSrc"},
+		} {
+			src, err := c16BodySrc(fset, FindFunc(cv, f[0], f[1]))
+			if err != nil {
+				return "", fmt.Errorf("%s.%s: %w", f[0], f[1], err)
+			}
+			def(f[2], src)
+		}
 
 		// where the converter sanitises name / namespace ('|' -> '_') relative to the two uses of the strings:
 		// the string written into the flat row (CreateString) and the string hashOfName hashes.
